@@ -4,7 +4,7 @@
    Every step is checked on its own: the model is run from the OBSERVED world before the
    step and must reproduce the observed result, log and world after it. *)
 From LC Require Import Lib.Bytes Lib.Lex Lib.Fields Lib.PathM Gen.Consts
-  Model.MountInfo Model.FsTree Model.Kernel Model.Layers Model.Args Model.Dispatch Cases.Verdict.
+  Model.MountInfo Model.FsTree Model.Kernel Model.Layers Model.Args Model.Dispatch Model.Whole Cases.Verdict.
 Open Scope N_scope.
 
 Module LC.
@@ -84,14 +84,19 @@ Definition model_step (c : cfgT) (w : wobs) (s : step) : sres :=
 Definition kstate_beq (a b : kstate) : bool :=
   ktab_beq (ks_tab a) (ks_tab b) && (ks_nextid a =? ks_nextid b) && (ks_nextdev a =? ks_nextdev b).
 
-Definition argv_ok (s : step) : bool :=
-  match s_argv s with [] => true | argv => dispatch_is argv (s_env s) (s_cmd s) end.
+(* a process-level step is the step the model of the whole binary (Model/Whole.v) says it is:
+   the command line dispatches to the command and options of the step (Model/Dispatch.v) and
+   config.Load (Model/Config.v), reading the observed file tree, yields the configuration of the case *)
+Definition argv_ok (c : cfgT) (w : wobs) (s : step) : bool :=
+  match s_argv s with
+  | [] => true
+  | argv => dispatch_is argv (s_env s) (s_cmd s) && config_is argv (wo_fs w) c
+  end.
 
 Definition step_corr (c : cfgT) (w : wobs) (s : step) : bool :=
   let r := model_step c w s in
   let w' := after w s in
-  (* a process-level step is the step the command-line model says it is (Model/Dispatch.v) *)
-  argv_ok s
+  argv_ok c w s
   && (rclass_beq (r_class r) (s_res s)
   && list_beq op_beq (r_log r) (s_oplog s)
   && fs_beq (r_fs r) (wo_fs w')
@@ -110,7 +115,7 @@ Definition step_diag (c : cfgT) (w : wobs) (s : step) : N :=
   let r := model_step c w s in
   let w' := after w s in
   (if rclass_beq (r_class r) (s_res s)
-        && argv_ok s then 1 else 0)
+        && argv_ok c w s then 1 else 0)
   + (if list_beq op_beq (r_log r) (s_oplog s) then 2 else 0)
   + (if fs_beq (r_fs r) (wo_fs w') then 4 else 0)
   + (if kstate_beq (r_ks r) (wo_ks w') then 8 else 0)
